@@ -86,13 +86,17 @@ func (d *DBFT[H]) checkPreCommit() {
 		d.preBlockProcessed = true
 	}
 
+	// Header can be constructed now, so Commits received earlier can finally
+	// be verified (this applies to WatchOnly nodes and nodes that have not
+	// sent their PreCommit yet too, they can collect enough Commits as well).
+	d.verifyCommitPayloadsAgainstHeader()
+
 	// Require PreCommit sent by self for reliability. This condition must not be
 	// removed because:
 	// 1) we need to filter out WatchOnly nodes;
 	// 2) CNs that have not sent PreCommit must not skip this stage (although it's OK
 	//    from the DKG/TPKE side to build final Block based only on other CN's data).
 	if d.PreCommitSent() {
-		d.verifyCommitPayloadsAgainstHeader()
 		d.sendCommit()
 		d.changeTimer(d.timePerBlock)
 		d.checkCommit()
